@@ -133,6 +133,24 @@ def check(index, ctx):
         counts = sorted({sum(1 for n in p if n in wnodes) for p in paths})
         ctx.require(set(counts) <= {0, 1} and 1 in counts, "R3", f"{fn.short}: one .grad write per key", f"writes per path through one iteration: {counts}",
                     f"{counts} .grad writes on a single pass through the loop body", fn.loc())
+        # ... and no iteration of the loop over the keys goes round without one: `if <something about the value>: continue` before the write leaves
+        # the .grad of a requested tensor neither created nor updated
+        for ln in [n for n in cfg.nodes if n.kind == "for" and any(any(w.ast is x for x in ast.walk(n.ast)) for w in wnodes)]:
+            seen_, todo_ = set(), [m for m, _ in cfg.succ[ln] if m.ast is not None and any(m.ast is x for b_ in ln.ast.body for x in ast.walk(b_))]
+            skipping = None
+            while todo_:
+                c_ = todo_.pop()
+                if c_ in seen_ or c_ in wnodes:
+                    continue
+                seen_.add(c_)
+                for m, lbl in cfg.succ[c_]:
+                    if m is ln:
+                        skipping = c_
+                    elif m.ast is not None and any(m.ast is x for b_ in ln.ast.body for x in ast.walk(b_)):
+                        todo_.append(m)
+            ctx.require(skipping is None, "R3", f"{fn.short}: every iteration over the keys writes a .grad", "no path through the loop body avoids the write",
+                        f"an iteration can reach the next one without any .grad write (through `{norm_text(skipping.ast)[:60] if skipping is not None and skipping.ast is not None else ''}`): for such a key "
+                        "the .grad is neither created nor added to although the tensor was requested", fn.loc(skipping.ast) if skipping is not None and skipping.ast is not None else fn.loc())
         for w in wnodes:
             from ..guards import cfg_guards, implies
 
